@@ -11,7 +11,7 @@ BASE_NOTE = ('Trusted: Lean 4.33 kernel (axioms audited per theorem: propext, Cl
 CLAIMED = {
  'C18': dict(
     text='Kernel-checked theorems: validate_iff, get_spec, set_spec, set_extent, get_after_set, reset_spec, the write algebra (validate_after_set: a write never changes which ranges are accepted; set_idempotent; set_overwrite: the last write to a range wins; set_commute_disjoint: writes to disjoint ranges commute; get_unaffected_by_disjoint_set: no bleed into neighbouring ranges), '
-         'blocks_refine_map (any op sequence on a block = the same sequence on a partial map, by induction), context_offset, '
+         'blocks_refine_map (any op sequence on a block = the same sequence on a partial map, by induction), context_offset, context_set_frame (a write through one function code leaves every other table and the addressing mode unchanged), '
          'server-context routing; the model is compared with the real block/context classes on boundary sweeps and random '
          'op sequences each run (validate is also checked against the block\'s own current contents after ANY history; blocks are built from shared initial lists, which must never be written through; server contexts built in each way a caller can build them; several live in one process and must not share their registry; slave contexts built with every subset of their four tables left out are checked against four independent maps).',
     design='6/C18', technique='Lean 4 refinement proof (block = partial map) + differential correspondence',
